@@ -135,7 +135,7 @@ def cases(tier, seed):
     for n in range(1, L + 1):
         for seq in itertools.product(KINDS, repeat=n):
             # history layer: operation sequences of this length on every expression over these leaves
-            hd = (3 if n <= 2 else 2) if tier == "quick" else (4 if n <= 3 else 3)
+            hd = (3 if n <= 2 else 2) if tier == "quick" else (4 if n <= 2 else 3 if n == 3 else 2)
             out.append({"seq": list(seq), "hdepth": hd})
     if tier == "quick":
         # (a+b)+(c+d) needs four leaves: keep a reduced 4-leaf layer in the quick tier
@@ -192,8 +192,10 @@ def _trigger_targets(obj, C):
     return [obj] if isinstance(obj, C["Detector"]) else []
 
 
-def _hit(ant, C):
-    sig = C["Signal"]([0.0, 1.0, 2.0, 3.0], [0.0, 2.0, -2.0, 0.0], C["Signal"].Type.voltage)
+def _hit(ant, C, strong=True):
+    """a pulse above (strong) or below the antennas' trigger threshold of 0.5"""
+    a = 2.0 if strong else 0.125
+    sig = C["Signal"]([0.0, 1.0, 2.0, 3.0], [0.0, a, -a, 0.0], C["Signal"].Type.voltage)
     ant.receive(sig)
 
 
@@ -280,8 +282,9 @@ def _one_tree(seq, shape, ops, use_sum, kw, fails, tag):
     tkw = {k: v for k, v in kw.items() if k != "unknown"}
     for pat in patterns:
         for a, h in zip(ants, pat):
-            if h:
-                _hit(a, C)
+            # every antenna receives something in every round: a triggering pulse or a sub-threshold one (what an antenna
+            # decided in an earlier round, before clear(), must not decide this one)
+            _hit(a, C, strong=bool(h))
         trans += 1
         want = any(pat)
         for mc in (False, True):
